@@ -63,6 +63,9 @@ DecAlpha  == <<JDec("0.5"), JInt(1), JDec("-1.5")>>
 BoolAlpha == <<JBool(FALSE), JBool(TRUE)>>
 AnyAlpha  == <<JNull, JInt(1), JStr("s"), JArr(<<JInt(1), JStr("s")>>),
                JObj("a" :> JObj("b" :> JNull)), JArr(<<JNull, JBool(TRUE), JDec("0.5"), JArr(<<>>)>>)>>
+\* payloads of undeclared keys: the LSPAny alphabet and an object nested 300 levels deep (what is ignored must be ignored whole)
+DeepObj(n) == [k |-> "deep", n |-> n]       \* {"d": {"d": ... null}} nested n levels, see LspValue.JEq
+UnkAlpha == AnyAlpha \o <<DeepObj(300)>>
 CustomStr == "x-custom"
 CustomInt == 99
 
@@ -151,11 +154,16 @@ MaxV(t, fuel) ==
 
 \* a union with a plain-string alternative next to structure alternatives: the string may well SPELL a property name of
 \* one of those structures (a hook that tests `"key" in value` must not take the string for an object)
+RECURSIVE DigitString(_)
+DigitString(n) == IF n = 0 THEN "" ELSE (IF n % 2 = 1 THEN "1" ELSE "0") \o DigitString(n - 1)
 KeyStrings(t) ==
     LET alts == AltTypes(t)
         structs == {i \in DOMAIN alts : alts[i].kind = "reference" /\ alts[i].name \in SName}
+        tuples == {i \in DOMAIN alts : alts[i].kind = "tuple"}
     IN IF \E i \in DOMAIN alts : alts[i].kind = "base" /\ alts[i].name = "string"
        THEN UNION {{JStr(FlatM[alts[i].name][k].name) : k \in DOMAIN FlatM[alts[i].name]} : i \in structs}
+            \* ... or, next to a tuple alternative, be as long as the tuple and made of digits (it unpacks like one)
+            \cup {JStr(DigitString(Len(alts[i].items))) : i \in tuples}
        ELSE {}
 \* the minimal object of every alternative (unions and aliases of unions flattened)
 RECURSIVE AltMins(_)
@@ -204,6 +212,7 @@ Ref(o, t) ==
             LET cur == {i \in DOMAIN t.items : Shape(o, t.items[i])} IN
             (UNION {Ref(o, t.items[i]) : i \in cur})
             \cup (UNION {AltMins(t.items[i]) : i \in DOMAIN t.items \ cur})
+            \cup {ks \in KeyStrings(t) : ~OEq(ks, o)}
       [] t.kind = "tuple" ->
             UNION { { [o EXCEPT !.a[i] = c] : c \in Ref(o.a[i], t.items[i]) } : i \in DOMAIN t.items }
       [] t.kind = "literal" -> IF t.value.properties = <<>> THEN {} ELSE RefInst(o)
@@ -466,7 +475,7 @@ DropSpecial ==
 
 AddUnknown ==
     /\ CanVary
-    /\ \E pl \in DOMAIN AnyAlpha : \E j2 \in Unk(svObj, svW, AnyAlpha[pl]) :
+    /\ \E pl \in DOMAIN UnkAlpha : \E j2 \in Unk(svObj, svW, UnkAlpha[pl]) :
           /\ svW' = j2
           /\ svVar' = [vk |-> "unk", name |-> UnkKey]
     /\ UNCHANGED svObj
